@@ -608,7 +608,8 @@ def hist_job(job):
         out["skip"] = f"build:{type(ex).__name__}"
         return out
     try:
-        if any(c12.pending_flatten_risky(pp, ref.env[t]) for t in job.get("targets", []) if t in ref.env):
+        if any(c12.pending_flatten_risky(pp, ref.env[t])
+               for t in list(job.get("targets", [])) + c12.unstreamlined_targets(prog) if t in ref.env):
             out["skip"] = "region:streamline_changes_unstreamlined_user"
             return out
     except RecursionError:
